@@ -22,7 +22,12 @@
    longest parked one gets the message); a blocking send otherwise queues the sender; a receiver
    entering recv takes the oldest queued sender's message at once, else parks.
 
-   Named deviations (genuine defects of the pinned tree, see notes/C17.md):
+   The tree carries the repair (fix commit, see notes/C17.md): Fix = TRUE is the code, Fix = FALSE the
+   behaviour before the repair, kept for the control configs that must violate Bounded / SendCompletes.
+   Hook sites with Fix = TRUE: pool.d.try, pool.d.load (before counter.fetch_update), pool.d.spawn,
+   pool.w.run (first hook of a new thread: it owns its first job), pool.w.done, pool.w.exit.
+
+   Named deviations of the old behaviour (genuine defects, repaired):
      DLoadPassLagged    the limit test reads a counter that the spawned worker increments itself, so
                         it passes although Limit threads are already committed  (limit exceeded)
      OrphanedBy         the only receiver that could take the blocking send retires (recv_timeout, or
@@ -320,6 +325,8 @@ SendCompletesModuloKnown == \A d \in Disp : (pcD[d] \in {"send", "sending"}) ~> 
 AcceptedRuns == \A j \in Jobs : (\E w \in Workers : wjob[w] = j) ~> (fin[j] # "no")
 AllRun == <>(\A j \in Jobs : fin[j] # "no")
 AllRunModuloKnown == (<>[](\E d \in Disp : orphan[d])) \/ <>(\A j \in Jobs : fin[j] # "no")
+\* every dispatch call comes back (accepted, or handed back / retried until accepted): the dispatcher never blocks
+DispatchReturns == \A d \in Disp : (pcD[d] # "idle") ~> (pcD[d] = "idle")
 \* a deviation flag is never raised in the repaired design
 NoDeviation == over = 0 /\ \A d \in Disp : ~orphan[d]
 =============================================================================
